@@ -23,6 +23,9 @@ CLAIMS = {
  "C17": ("exploration", "differential delivery: same byte stream under chosen segmentations on a cut-imposing io.Reader and on a paced AF_UNIX socket pair, compared with the unsegmented run",
          "Streams of 1-6 independent frames are delivered to a real server under every single cut and every pair of cuts (streams <= 120 bytes), one byte at a time, cuts at header bytes 1-7 / fixed-payload boundary and PRNG cut sets for long streams, and truncated at every offset with EOF (separately and with the last bytes); on the generic path and on a socket pair (recvmsg path, each segment consumed before the next is written). Replies by tag, backend-observed payload bytes and the backend call multiset must equal the unsegmented run. The same for a real client receiving segmented Rread/Rreaddir/Rgetattr/Rwalk/Rreadlink replies.",
          "The unsegmented delivery is the reference; socket segment boundaries rely on TIOCINQ polling of the receiver's queue.", "DESIGN.md section 3 C17"),
+ "C02": ("exploration", "reference-codec referee over hostile frame sequences at a lock-step raw peer, alignment probes, consumed-byte and allocation accounting; hostile replies to a real client",
+         "Every frame of sequences mixing good frames with each class of bad frame (unknown type, short body at every offset, inflated counts, bit flips, R-types, random bodies, payload-count mismatch) is refereed by the independent codec: well-delimited invalid frames must be answered Rlerror (tag or NOTAG) and an alignment probe after each frame must come back intact; size fields below 7 / above msize (before and after negotiation) must end the connection with 0 body bytes consumed, no reply, no backend call and no allocation; TotalAlloc deltas bound buffering. A real client is fed the same classes as replies to a pending call: it must return (error or exactly the encoded values), never hang or crash.",
+         "Trusts the reference codec's notion of validity and net.Pipe byte accounting; the allocation bound is a coarse proxy (slack 16 MiB); exact delivered values are checked in C01/C18.", "DESIGN.md section 3 C02"),
 }
 
 PENDING = "check under construction in this round (DESIGN.md section 3); will be claimed once its monitor is committed and silent on the repaired tree"
